@@ -351,8 +351,37 @@ def shard_om_tokens(arg):
   return n, nontrivial, bad
 
 
+def long_names(_):
+  """Names far longer than anything a log line wants to print, well-formed and not: what is stored and relayed is the
+  whole name (normalised or exactly as received), never a clipped one."""
+  N = Norm()
+  bad = []
+  n = 0
+  for L in (399, 400, 401, 450, 1000, 5000):
+    body = 'a' * L
+    cases = [(body + ';=x', False), (body + ';k=', False), ('m;' + 'k' * L + '!=v', False), (body + ';x', False),
+             (body + 'A;k=v;b=w', True), (body + 'B;k=v;b=w', True), ('m;z=' + 'v' * L + ';b=w', True)]
+    for x, wf in cases:
+      n += 1
+      acc, nx, dis = N.norm(x)
+      if dis:
+        bad.append(('entry-points-disagree', 'for a %d-character name %r...: %s' % (len(x), x[:12], dis[:300]), {'string': x}))
+      elif wf and not acc:
+        bad.append(('rejects-well-formed:other', 'well-formed %d-character name %r...%r rejected' % (len(x), x[:8], x[-10:]), {'string': x}))
+      elif not wf and (acc or nx != x):
+        bad.append(('rejected-but-altered' if not acc else 'accepts-ill-formed', 'ill-formed %d-character name %r...%r was %s as a '
+                    '%d-character name ...%r' % (len(x), x[:8], x[-8:], 'accepted' if acc else 'stored/relayed', len(nx), nx[-12:]), {'string': x}))
+      elif wf and acc and len(nx) != len(x):
+        bad.append(('normalisation-changes-length', 'well-formed %d-character name normalised to %d characters' % (len(x), len(nx)), {'string': x}))
+  return n, bad[:3]
+
+
 def run(ctx):
   env.boot()
+  ln, lbad = core.pmap(long_names, [0])[0]
+  for key, what, rep in lbad:
+    ctx.violation(key, what, rep)
+  ctx.add(long_name_cases=ln)
   om_len = ctx.pick(3, 4)
   seqs = [t for k in range(1, om_len + 1) for t in itertools.product(OM_TOKENS, repeat=k)]
   ores = core.pmap(shard_om_tokens, [(('m', 'a.b', '~m'), seqs[i::16]) for i in range(16)], chunksize=1)
